@@ -160,9 +160,9 @@ def purity_part(run, pid, calls):
         what = "modified one of its arguments" if e["aout"] != e["ain"] else "returned a different result for the same arguments (hidden state)"
         run.violation("purity: call %d of the recorded trace, %s, %s" % (ln, meta[ln - 1], what), {"line": ln, "event": e, "function": meta[ln - 1]},
                       {"part": "purity", "function": meta[ln - 1]})
-    if raised:
-        # a representative call that raises is a driver problem (or a crash of the library): never silently accepted
-        raise RuntimeError("purity: representative calls raised: %s" % raised)
+    for nm_, ex_ in sorted(raised.items()):
+        # every representative call succeeds on the unchanged tree (checked when the table was written): a raise is a crash on valid input
+        run.violation("purity: the representative call of %s raised %s" % (nm_, ex_), {"function": nm_}, {"part": "purity", "function": nm_, "raised": True})
     for name in meta:
         run.case(("purity", name), part="purity (arguments untouched, same call same answer)")
     run.trace_validated(len(trace))
